@@ -403,7 +403,7 @@ class Parser:
         # TODO, print warning if have a bogus keyword, e.g., S chip333
 
         if (cpt_id == '' and parent is not None
-                and (cpt_type in ('A', 'W', 'O', 'P')) or self.allow_anon):
+                and (cpt_type in ('A', 'W', 'O', 'P') or self.allow_anon)):
             relname = parent._make_anon_cpt_name(cpt_type)
         elif cpt_id == '?':
             # Automatically name cpts to ensure they are unique
